@@ -336,8 +336,75 @@ def dtab_mapref(ctx, prog):
             ctx.fail(R, "propagate", "the MapRef arm of recompute_one does not pass did_change on", fn=RO)
 
 
+def preserve_cutoff(ctx, prog, R="C06.DATA-preserve-cutoff"):
+    ctx.rule(R, "depend_on's internal cutoff suppresses exactly when input.changed_at == output.changed_at (both read "
+                "from the captured weak references); it must not depend on the current stabilisation number, which "
+                "differs when the node is recomputed in a later stabilisation than the one in which the input changed")
+    F = ctx.need_fn(R, "incremental::incr::preserve_cutoff::{closure#0}")
+    P = ctx.need_fn(R, "incremental::incr::preserve_cutoff")
+    if F is None or P is None:
+        return
+    du = DefUse(F)
+    rets = []
+    for t in F.calls():
+        if t.dst is not None and t.dst.is_local() and t.dst.local == 0:
+            rets.append(("call", t))
+    for st in F.stmts():
+        if st.dst is not None and st.dst.is_local() and st.dst.local == 0:
+            rets.append(("assign", st))
+    good = False
+    desc = []
+    for kind, site in rets:
+        e = expr(F, q.Place({"local": 0, "proj": []}), du) if kind == "assign" else \
+            ("call", q.strip_generics(site.callee or "?"), tuple(expr(F, a, du) for a in site.args))
+        desc.append(show(e)[:160])
+        if e[0] == "call" and e[1].endswith("::eq") and len(e[2]) == 2:
+            a, b = e[2]
+            def side(x, name):
+                return x[0] == "call" and x[1].endswith("changed_at") and mentions(
+                    x, lambda y: y[0] == "field" and y[1] == ("arg", 1) and any(name in f for f in y[2]))
+            # one operand from the captured input, the other from the captured output (upvar #0 / #1)
+            caps = [c["name"] for c in F.j.get("captures", [])]
+            if len(caps) == 2 and ((side(a, "upvar#0") and side(b, "upvar#1")) or (side(a, "upvar#1") and side(b, "upvar#0"))):
+                good = True
+    ctx.site(R, F, "cutoff verdict = %s" % desc)
+    if mentions(("x",) + tuple(expr(F, a, du) for t in F.calls() for a in t.args), lambda y: y[0] == "field" and y[2][-1] == "stabilisation_num"):
+        good = False
+    # the two captures are weak handles of (input, output) in that order
+    pdu = DefUse(P)
+    caps_ok = False
+    for st in P.stmts():
+        rv = st.rv or {}
+        if "agg" in rv and isinstance(rv["agg"], dict) and rv["agg"].get("closure") == F.path:
+            ops = [expr(P, o, pdu) for o in rv["ops"]]
+            caps_ok = len(ops) == 2 and all(o[0] == "call" and o[1].endswith("Incr::weak") for o in ops) and \
+                ops[0][2][0] == ("arg", 1) and ops[1][2][0] == ("arg", 2)
+    if good and caps_ok:
+        ctx.ok(R, "verdict")
+    else:
+        ctx.fail(R, "verdict", "preserve_cutoff's closure decides by %s (captures ok=%s); specified: changed_at(input) == "
+                 "changed_at(output). A depend_on node recomputed later than its input changed would take the new value "
+                 "but suppress the change, leaving its dependants stale" % (desc, caps_ok), fn=F)
+    # depend_on installs it on its own output with (self, output)
+    D = ctx.need_fn(R, "incremental::incr::Incr::<T>::depend_on")
+    if D is not None:
+        ddu = DefUse(D)
+        cs = q.calls_in(D, "incr::preserve_cutoff")
+        okd = False
+        for t in cs:
+            a, b = expr(D, t.args[0], ddu), expr(D, t.args[1], ddu)
+            ctx.site(R, D, "preserve_cutoff(%s, %s)" % (show(a), show(b)[:60]))
+            if a == ("arg", 1) and b[0] == "call" and "map2" in b[1]:
+                okd = True
+        if okd:
+            ctx.ok(R, "installed")
+        else:
+            ctx.fail(R, "installed", "depend_on does not install preserve_cutoff(self, output)", fn=D)
+
+
 for _f, _id in ((data_order, "C06.DATA-order"), (data_gate, "C06.DATA-gate"), (pdom_never, "C06.PDOM-never"),
-                (dtab_kinds, "C06.DTAB-kinds"), (dtab_mapref, "C06.DTAB-mapref")):
+                (dtab_kinds, "C06.DTAB-kinds"), (dtab_mapref, "C06.DTAB-mapref"),
+                (preserve_cutoff, "C06.DATA-preserve-cutoff")):
     _f.rule_id = _id
 
-RULES = [data_order, data_gate, pdom_never, dtab_kinds, dtab_mapref]
+RULES = [data_order, data_gate, pdom_never, dtab_kinds, dtab_mapref, preserve_cutoff]
